@@ -72,9 +72,19 @@ Lemma ssort_nodup l : NoDup l -> NoDup (ssort l).
 Proof. intro H. eapply Permutation_NoDup; [symmetry; apply ssort_perm|exact H]. Qed.
 
 (* (a) the order in which Go ranges over the directoryChildren map does not matter *)
+Theorem sort_headers_ord_indep_raw ord hs :
+  Permutation ord (map fst (dir_children hs)) -> sort_headers_ord_raw ord hs = sort_headers_raw hs.
+Proof. intro P. unfold sort_headers_raw, sort_headers_ord_raw. rewrite (ssort_perm_eq _ _ P). reflexivity. Qed.
+(* the map Go ranges over is filled from the entries that are kept (fix f716198: not the archive root) *)
 Theorem sort_headers_ord_indep ord hs :
-  Permutation ord (map fst (dir_children hs)) -> sort_headers_ord ord hs = sort_headers hs.
-Proof. intro P. unfold sort_headers, sort_headers_ord. rewrite (ssort_perm_eq _ _ P). reflexivity. Qed.
+  Permutation ord (map fst (dir_children (filter not_dot hs))) -> sort_headers_ord ord hs = sort_headers hs.
+Proof. intro P. unfold sort_headers, sort_headers_ord. apply sort_headers_ord_indep_raw, P. Qed.
+Lemma filter_not_dot_id hs : (forall h, In h hs -> clean (h_name h) <> ".") -> filter not_dot hs = hs.
+Proof.
+  induction hs as [|h hs IH]; intro H; [reflexivity|]. cbn [filter]. unfold not_dot at 1.
+  destruct (clean (h_name h) =? ".") eqn:E; [apply String.eqb_eq in E; exfalso; exact (H h (or_introl eq_refl) E)|].
+  cbn [negb]. rewrite IH; [reflexivity|]. intros x I. apply H. right. exact I.
+Qed.
 
 (* ---- the two Go maps --------------------------------------------------------------- *)
 Definition ckey (h : hdr) : string := clean (h_name h).
@@ -535,9 +545,9 @@ Proof.
 Qed.
 
 Theorem sort_headers_spec :
-  exists out, sort_headers hs = Ok out /\ Permutation out hs /\ governed None out = true.
+  exists out, sort_headers_raw hs = Ok out /\ Permutation out hs /\ governed None out = true.
 Proof.
-  unfold sort_headers, sort_headers_ord.
+  unfold sort_headers_raw, sort_headers_ord_raw.
   set (top := ssort (filter (fun d => path_dir d =? ".") (ssort (map fst DC)))).
   assert (Itop : forall d, In d top <-> path_dir d = "." /\ alookup d DC <> None).
   { intro d. unfold top. rewrite ssort_in, filter_In, ssort_in, alookup_in, String.eqb_eq. tauto. }
@@ -624,7 +634,7 @@ Qed.
 Theorem sort_headers_in_envelope hs : sort_envelope hs ->
   exists out, sort_headers hs = Ok out /\ Permutation out hs /\ governed None out = true.
 Proof.
-  intro E. apply sort_headers_spec.
+  intro E. unfold sort_headers. rewrite (filter_not_dot_id hs (se_nodot hs E)). apply sort_headers_spec.
   - exact (se_nodup hs E).
   - exact (envelope_reach hs E).
   - exact (envelope_gov hs E).
@@ -674,14 +684,15 @@ Theorem sort_headers_envelope hs ord : sort_envelope hs -> Permutation ord (map 
     Permutation out hs /\ governed None out = true /\ sort_tags hs out = [].
 Proof.
   intros E P. destruct (sort_headers_in_envelope hs E) as (out & Eo & Po & Go).
-  exists out. rewrite (sort_headers_ord_indep ord hs P). repeat split; try assumption.
+  exists out. rewrite (sort_headers_ord_indep ord hs) by (rewrite (filter_not_dot_id hs (se_nodot hs E)); exact P). repeat split; try assumption.
   apply sort_validator_decides. split; [exact Go|]. split; intros x I; eapply Permutation_in; try exact I; [exact Po|symmetry; exact Po].
 Qed.
 
 (* ---- each envelope condition is needed ---------------------------------------------------------- *)
 Theorem sort_envelope_needed :
-  (* a "./" directory entry is its own child: the recursion does not end (finding C15-F4) *)
-  sort_headers [mkHdr "./" true 493 0 0 ""] = OutOfFuel /\
+  (* a "./" directory entry is left out of the result (fix f716198); before the fix it was its own child
+     and the recursion did not end (finding C15-F4): [sort_headers_raw], hypothetical now *)
+  (sort_headers [mkHdr "./" true 493 0 0 ""] = Ok [] /\ sort_headers_raw [mkHdr "./" true 493 0 0 ""] = OutOfFuel) /\
   (* a top-level entry without children is not reached (finding C16-F5) *)
   sort_headers [mkHdr "dev/" true 493 0 0 ""; mkHdr "usr/" true 493 0 0 ""; mkHdr "usr/bin/" true 493 0 0 ""] =
     Ok [mkHdr "usr/" true 493 0 0 ""; mkHdr "usr/bin/" true 493 0 0 ""] /\
@@ -695,6 +706,6 @@ Theorem sort_envelope_needed :
   (exists out, sort_headers [mkHdr "a/" true 493 0 0 ""; mkHdr "a/b/" true 493 0 0 ""; mkHdr "a/b/c/." false 420 0 0 ""] = Ok out /\
      Permutation out [mkHdr "a/" true 493 0 0 ""; mkHdr "a/b/" true 493 0 0 ""; mkHdr "a/b/c/." false 420 0 0 ""] /\ governed None out = false).
 Proof.
-  split; [vm_compute; reflexivity|]. split; [vm_compute; reflexivity|]. split; [vm_compute; reflexivity|]. split; [vm_compute; reflexivity|].
+  split; [split; vm_compute; reflexivity|]. split; [vm_compute; reflexivity|]. split; [vm_compute; reflexivity|]. split; [vm_compute; reflexivity|].
   eexists. split; [vm_compute; reflexivity|]. split; [reflexivity|vm_compute; reflexivity].
 Qed.
